@@ -159,14 +159,30 @@ func (c *Ctx) c19Server(rel, name string) {
 	})
 	r.Check(waits == 1, "C19/DRAIN", name+":Drain", p.Pos(drain.Pos()), "Drain waits on the session WaitGroup", "Drain does not wait on the session WaitGroup: it returns while sessions are open")
 	// D3 listener close after ctx.Done
+	// the wait may live in a helper Start calls synchronously (closeOnShutdown(ctx))
 	var doneRecv ssa.Instruction
-	eng.EachInstr(start, func(in ssa.Instruction) {
-		if u, ok := in.(*ssa.UnOp); ok && u.Op == token.ARROW {
-			if call, ok := u.X.(*ssa.Call); ok && call.Call.IsInvoke() && call.Call.Method.Name() == "Done" {
-				doneRecv = in
-			}
+	waitFn := start
+	var startFns []*ssa.Function
+	for fn := range p.SyncReach(start) {
+		if eng.FuncPkgPath(fn) == eng.Mod+"/"+rel {
+			startFns = append(startFns, fn)
 		}
-	})
+	}
+	sortFuncs(startFns)
+	for _, fn := range append([]*ssa.Function{start}, startFns...) {
+		if doneRecv != nil {
+			break
+		}
+		fn := fn
+		eng.EachInstr(fn, func(in ssa.Instruction) {
+			if u, ok := in.(*ssa.UnOp); ok && u.Op == token.ARROW {
+				if call, ok := u.X.(*ssa.Call); ok && call.Call.IsInvoke() && call.Call.Method.Name() == "Done" {
+					doneRecv = in
+					waitFn = fn
+				}
+			}
+		})
+	}
 	isLisClose := func(in ssa.Instruction) bool {
 		call, ok := in.(*ssa.Call)
 		if !ok || !call.Call.IsInvoke() || call.Call.Method.Name() != "Close" {
@@ -176,7 +192,7 @@ func (c *Ctx) c19Server(rel, name string) {
 	}
 	if doneRecv == nil {
 		r.Bad("C19/LISTENER", name+":Start", p.Pos(start.Pos()), "Start does not wait for ctx.Done(): the listener is never closed on shutdown")
-	} else if ret := (&eng.Search{Target: eng.IsReturnOf(start), Avoid: isLisClose, Deep: true}).After(doneRecv); ret != nil {
+	} else if ret := (&eng.Search{Target: eng.IsReturnOf(waitFn), Avoid: isLisClose, Deep: true}).After(doneRecv); ret != nil {
 		r.Bad("C19/LISTENER", name+":Start", p.InstrPos(ret), "a path from ctx.Done() to return does not close the listener: new connections are still accepted after shutdown was requested")
 	} else {
 		r.Ok("C19/LISTENER", name+":Start", p.InstrPos(doneRecv), "listener closed on every path after ctx.Done()")
@@ -266,6 +282,111 @@ func (c *Ctx) c19Server(rel, name string) {
 			}
 		}
 	}
+	isAccept := func(x ssa.Instruction) bool {
+		call, ok := x.(*ssa.Call)
+		return ok && call.Call.IsInvoke() && call.Call.Method.Name() == "Accept"
+	}
+	isNotifyI := func(x ssa.Instruction) bool {
+		if s, ok := x.(*ssa.Send); ok && eng.SameField(eng.LoadedField(s.Chan), fNotify) {
+			return true
+		}
+		if call, ok := x.(*ssa.Call); ok && eng.CalleeName(call.Common()) == "builtin.close" && eng.SameField(eng.LoadedField(call.Call.Args[0]), fNotify) {
+			return true
+		}
+		return false
+	}
+	// the accept-error handling extracted into a helper: its ctx.Done() arm returns quietly
+	// with constant results, and serve returns (does not accept again) on those results
+	eng.EachInstr(serve, func(in ssa.Instruction) {
+		hc, ok := in.(*ssa.Call)
+		if !ok {
+			return
+		}
+		h := eng.StaticCallee(hc.Common())
+		if h == nil || len(h.Blocks) == 0 || eng.FuncPkgPath(h) != eng.Mod+"/"+rel || donePredicate(h) {
+			return
+		}
+		eng.EachInstr(h, func(hi ssa.Instruction) {
+			sel, isSel := hi.(*ssa.Select)
+			if !isSel {
+				return
+			}
+			i := isDoneSel(sel)
+			if i < 0 {
+				return
+			}
+			arm := eng.SelectArm(sel, i)
+			if arm == nil {
+				return
+			}
+			selSite = p.InstrPos(hi)
+			if eng.BlockReaches(arm, isNotifyI, nil) != nil || eng.BlockReaches(arm, isAccept, nil) != nil {
+				return
+			}
+			// the constant boolean results of the returns the arm reaches
+			consts := map[int]bool{}
+			conflict := false
+			nRet := 0
+			eng.BlockReaches(arm, func(x ssa.Instruction) bool {
+				ret, isRet := x.(*ssa.Return)
+				if !isRet {
+					return false
+				}
+				nRet++
+				for ri, rv := range eng.ReturnResults(ret) {
+					if b, isC := eng.ConstBool(rv); isC {
+						if old, has := consts[ri]; has && old != b {
+							conflict = true
+						}
+						consts[ri] = b
+					}
+				}
+				return false
+			}, nil)
+			if nRet == 0 || conflict {
+				return
+			}
+			// back in serve: with those results the loop must end
+			quiet := false
+			if h.Signature.Results().Len() == 0 {
+				quiet = (&eng.Search{Target: isAccept}).After(hc) == nil
+			}
+			for ri, bv := range consts {
+				var ex ssa.Value
+				if h.Signature.Results().Len() == 1 && ri == 0 {
+					ex = hc
+				} else {
+					ex = extractOf(hc, ri)
+				}
+				if ex == nil {
+					continue
+				}
+				for _, b := range serve.Blocks {
+					for k := 0; k < len(b.Succs) && len(b.Succs) == 2; k++ {
+						v, pol, ok := eng.CondTruth(b, k)
+						if !ok || pol != bv {
+							continue
+						}
+						same := v == ex
+						for _, al := range eng.ValueAliases(ex) {
+							if v == al {
+								same = true
+							}
+						}
+						if !same || !eng.Dominates(hc, eng.IfOf(b)) {
+							continue
+						}
+						if eng.BlockReaches(b.Succs[k], isAccept, nil) == nil && eng.BlockReaches(b.Succs[k], isNotifyI, nil) == nil && eng.BlockReaches(b.Succs[k], eng.IsReturn, nil) != nil {
+							quiet = true
+						}
+					}
+				}
+			}
+			if quiet {
+				okArm = true
+			}
+		})
+	})
 	for _, da := range arms {
 		{
 			arm := da.arm
